@@ -544,7 +544,7 @@ def gen_c14_sm9(tier, rng):
         yield ('sm9-out-of-range-candidate', 's9_exch %s %s %s 16 %s,%s %s -' % (H(ks), hx(b'A'), hx(b'B'), b_, g, good_r(rng)), None)
     # long RUNS of out-of-range candidates before a good one
     for nbad in ((3, 64, 127, 128, 129, 300, 1000) if tier == 'thorough' else (3, 128, 129, 300)):
-        bads = [rng.choice(['ff' * 32, H(N), H(N + rng.randrange(1, 1 << 200)), '00' * 32, H(N - 1)]) for _ in range(nbad)]
+        bads = [rng.choice(['ff' * 32, H(N), H(N + rng.randrange(1, 1 << 200)), '00' * 32]) for _ in range(nbad)]   # (N - 1 may legitimately be skipped: `awkward`)
         yield ('sm9-long-run-of-bad-candidates', 's9_keygen %s %s,%s' % (rng.choice(['sign', 'enc', 'signfn', 'encfn']), ','.join(bads), good_r(rng)), None)
         if nbad <= 300:
             yield ('sm9-long-run-of-bad-candidates', 's9_exch %s %s %s 16 %s,%s %s -' % (H(ks), hx(b'A'), hx(b'B'), ','.join(bads), good_r(rng), good_r(rng)), None)
